@@ -70,11 +70,11 @@ def search(ctx):
     small = src
     if bad == "accepted":
         payload = tg.C04_KINDS.get(k, (None, None))[0]
-        needle = payload[-1].strip() if payload else None
+        needles = [l.strip() for l in payload] if payload else []
 
         def still(cands):
             acc = base.accepted(cands)
-            return [a and (needle is None or needle in c) for a, c in zip(acc, cands)]
+            return [a and all(n in c for n in needles) for a, c in zip(acc, cands)]
         small = base.shrink_program(src, still)
     return {"source": small, "kind": k, "position": info, "class": cls,
             "what": "planted %s: %s (the property demands Err with a type error)" % (k, bad),
